@@ -1,6 +1,18 @@
-import QRV.GenTypes
-import QRV.Gen.GF
-import QRV.Gen.Kanji
-import QRV.Gen.QR
-import QRV.Gen.Micro
-import QRV.Gen.RMQR
+-- Root of the QRV library: every property module (and through them every lemma, model and
+-- specification module) so that `lake build QRV` checks the whole development.
+import QRV.Audit
+import QRV.Props.C01
+import QRV.Props.C02
+import QRV.Props.C03
+import QRV.Props.C04
+import QRV.Props.C05
+import QRV.Props.C09
+import QRV.Props.C11
+import QRV.Props.C12
+import QRV.Props.C13
+import QRV.Props.C14
+import QRV.Props.C14Complete
+import QRV.Props.C15
+import QRV.Props.C16
+import QRV.Props.C17
+import QRV.Props.C18
